@@ -78,19 +78,19 @@ type plan struct {
 }
 
 type op struct {
-	Op     string `json:"op"` // q | adv | seedq | seedz
-	Client string `json:"client,omitempty"`
-	Entry  string `json:"entry,omitempty"` // msg/udp msg/tcp msg/doh raw/udp raw/tcp
-	Name   string `json:"name,omitempty"`
-	Qtype  uint16 `json:"qtype,omitempty"`
-	Qclass uint16 `json:"qclass,omitempty"`
-	CD     bool   `json:"cd,omitempty"`
-	EDNS   bool   `json:"edns,omitempty"`
-	DO     bool   `json:"do,omitempty"`
-	ECS    string `json:"ecs,omitempty"` // "addr/bits" as sent by the client
-	Plan   plan   `json:"plan"`
-	Tag    string `json:"tag,omitempty"`
-	AdvNS  int64  `json:"adv_ns,omitempty"`
+	Op     string     `json:"op"` // q | adv | seedq | seedz
+	Client string     `json:"client,omitempty"`
+	Entry  string     `json:"entry,omitempty"` // msg/udp msg/tcp msg/doh raw/udp raw/tcp
+	Name   string     `json:"name,omitempty"`
+	Qtype  uint16     `json:"qtype,omitempty"`
+	Qclass uint16     `json:"qclass,omitempty"`
+	CD     bool       `json:"cd,omitempty"`
+	EDNS   bool       `json:"edns,omitempty"`
+	DO     bool       `json:"do,omitempty"`
+	ECS    string     `json:"ecs,omitempty"` // "addr/bits" as sent by the client
+	Plan   plan       `json:"plan"`
+	Tag    string     `json:"tag,omitempty"`
+	AdvNS  int64      `json:"adv_ns,omitempty"`
 	Burst  *burstSpec `json:"burst,omitempty"`
 	// filled while executing (evidence in the replay file, ignored on replay)
 	Got string `json:"got,omitempty"`
@@ -523,6 +523,20 @@ func (h *hist) Q(o op) outcome {
 			switch {
 			case cov.tightK == 1:
 				r.Count("envelope_probe_first_interval", 1)
+				if po.Tag == "probe-after-reset" && cov.tightResets > 0 {
+					// fail ... useful, fail, wait the MINIMUM, probe: must reach
+					kind := "question"
+					switch {
+					case cov.tightKind == "zone":
+						kind = "zone"
+					case k.Scope != "":
+						kind = "scoped-question"
+					}
+					r.Count("restart_probe_at_min_"+kind, 1)
+					if out.Reached > 0 {
+						r.Count("restart_probe_at_min_reached_"+kind, 1)
+					}
+				}
 			case cov.tightBound >= h.m.max:
 				r.Count("envelope_probe_at_max", 1)
 			default:
@@ -586,7 +600,56 @@ func (h *hist) Q(o op) outcome {
 		}
 	}
 	h.checkState(idx, po, k)
+	if out.Reached > 0 && po.Plan.Kind == "fail" && !h.m.disabled && strings.HasSuffix(po.Tag, "fail-after-useful") {
+		h.checkRestart(idx, po, k)
+	}
 	return out
+}
+
+// checkRestart is the white-box half of "a useful answer resets the backoff":
+// right after the first failure that follows a useful answer, the retained
+// state for what just failed must describe a FIRST failure — remaining backoff
+// within the configured minimum (streak 1 unless the bounds make the streak
+// unobservable). checkState has already judged the same entries against the
+// model (state/streak-exceeds-consecutive-failures, state/first-backoff-
+// exceeds-min); this names the clause and counts, per kind of state, that the
+// path was really exercised — in particular for state only
+// FailureCache.ResetMatching clears (ECS-scoped questions, zone history).
+func (h *hist) checkRestart(idx int, po *op, k qkey) {
+	r := h.r
+	zone := canon(po.Plan.ZoneFail)
+	for _, e := range h.cache.VerifC13Failures() {
+		kind := ""
+		switch {
+		case e.Kind == "question" && canon(e.Name) == k.Name && e.Qtype == k.Qtype && e.Qclass == k.Qclass && e.CD == k.CD && e.Scope == k.Scope:
+			kind = "question"
+			if k.Scope != "" {
+				kind = "scoped-question"
+			}
+		case e.Kind == "zone" && po.Plan.ZoneFail != "" && canon(e.Name) == zone && e.Qclass == k.Qclass:
+			kind = "zone"
+		default:
+			continue
+		}
+		var me *mEntry
+		if e.Kind == "zone" {
+			me = h.m.z[zkey{zone, k.Qclass}]
+		} else {
+			me = h.m.q[k]
+		}
+		if me == nil || me.K != 1 || me.Resets == 0 || me.Seeded {
+			continue // the model did not see a reset followed by exactly one failure
+		}
+		r.Count("restart_state_checked_"+kind, 1)
+		if e.Streak == 1 {
+			r.Count("restart_state_streak_1_"+kind, 1)
+		}
+		if e.Remaining > h.m.min {
+			r.Violation("reset/backoff-not-restarted-at-min/"+kind,
+				fmt.Sprintf("first failure after a useful answer: %s %s audience=%q retains streak=%d with %v of backoff left; the configured minimum is %v",
+					e.Kind, e.Name, e.Scope, e.Streak, e.Remaining, h.m.min), h.replay(idx))
+		}
+	}
 }
 
 func (h *hist) violateSuppressed(idx int, po *op, k qkey, cov cover, dim string) {
